@@ -88,6 +88,7 @@ def make_cases(chk, r, n_random, testdata=TESTDATA, corpus_prop=None, null_order
 
 def build_cases(cases, features, std="c++14", compiler="g++", defines=(), opt="-O0", workers=8,
                 eq_params_ok=False):
+    workers = int(os.environ.get("VERIF_CPP_WORKERS", workers))   # parallel g++ jobs (default 8)
     res = cppdrv.build([c.prepared for c in cases], std=std, compiler=compiler, defines=defines, opt=opt,
                        workers=workers, features=features, eq_params_ok=eq_params_ok)
     for c, (b, log) in zip(cases, res):
@@ -237,7 +238,7 @@ def run_surviving(case, cmds, on_crash, max_crashes=40):
     return answers
 
 
-def crash_key(rr, cmd=""):
+def crash_key(rr, cmd="", case=None):
     """Narrow classification of a sanitizer report / CHECK abort (for known-finding routing)."""
     err = rr.err or ""
     toks = cmd.split()
@@ -253,7 +254,12 @@ def crash_key(rr, cmd=""):
         import re
         m = re.search(r"AddressSanitizer: ([\w-]+)", err)
         what = m.group(1) if m else "?"
-        if "NullByteOrderer" in err:
+        # optimised builds inline the orderer's frames away: fall back on "the module has a field
+        # with the Null byte order and the report is a 1-byte read past the heap buffer"
+        null_field = case is not None and case.prepared is not None and \
+            "NullByteOrderer" in (case.prepared.header or "")
+        if "NullByteOrderer" in err or (null_field and what == "heap-buffer-overflow" and
+                                        "READ of size 1" in err):
             return "asan:%s:NullByteOrderer-truncated-one-byte-field" % what
         return "%s:%s" % (kind, what)
     if "runtime error:" in err:
